@@ -850,15 +850,22 @@ class ProgressSuite(PairedSuite):
                 evs.append(ev(t_stand, "call", "Stand next"))
                 t_end = start + shift + iv * (nrows * n + nrows // 2) + 1
                 evs.append(ev(t_end, "global", [True] * n))
+                humans2 = set(humans)
+                if n >= 6 and rng.random() < 0.5:
+                    # between the touches the tower is made two bells smaller and then as big as before: whoever held
+                    # the two bells that went has lost them (Ringing Room drops those assignments), they are Wheatley's now
+                    evs.append(ev(t_end + Fraction(1, 10), "size", n - 2))
+                    evs.append(ev(t_end + Fraction(3, 10), "size", n))
+                    humans2 = {b for b in humans if b <= n - 2}
                 look2 = t_end + Fraction(rng.randint(50, 90), 100) + Fraction(1, 1000)
                 evs.append(ev(look2, "call", "Look to"))
                 for r, row in enumerate(probe_rows(spec, n, 2)):
                     for p, bell in enumerate(row):
-                        if bell in humans:
+                        if bell in humans2:
                             evs.append(ev(look2 + 3 + iv * (r * n + p) - Fraction(5, 1000) + Fraction(rng.randint(1, 999), 10 ** 7), "ring", bell))
                 horizon = look2 + 3 + iv * (2 * n) + Fraction(1, 3000)
                 rh.update({"inertia": 1.0, "initial_inertia": 1.0})
-                second = fstr(look2)
+                second = [fstr(look2), 2 * (n - len(humans2))]
             a = base(spec, n, rh, evs, horizon)
             yield {"a": a, "oracle": {"n": n, "nrows": nrows, "humans": sorted(humans), "style": style, "kind": kind,
                                       "iv": fstr(iv), "size_change": size_change, "awaited": awaited,
@@ -883,9 +890,12 @@ class ProgressSuite(PairedSuite):
                     f"although every human rang every blow")
         ws = wheatley_strikes(o)
         if orc.get("second"):
-            look2 = Fraction(orc["second"])
+            look2 = Fraction(orc["second"][0])
             later = [x for x in ws if x[3] >= look2]
             ws = [x for x in ws if x[3] < look2]
+            if len(later) < orc["second"][1] - 1:
+                return (f"second touch, punctual band: Wheatley struck only {len(later)} of its {orc['second'][1]} blows of the two "
+                        f"rows before the end of the session - it is waiting for somebody who is not there")
             if not later:
                 return (f"second touch: Wheatley (on the treble) had not struck {float(Fraction(case['a']['horizon']) - look2):.2f}s "
                         f"after Look to; its pull-off was due 3 s after it")
